@@ -118,7 +118,7 @@ def split_ext(line):
 # ----------------------------------------------------------------------------- rendering
 
 LIT = {
-    'std::int64': '7', 'std::float64': '2.5', 'std::str': "'ab'", 'std::bool': 'true',
+    'std::int64': '1', 'std::float64': '2.5', 'std::str': "'ab'", 'std::bool': 'true',
     'std::bigint': '5n', 'std::decimal': '1.5n', 'std::bytes': "b'ab'",
 }
 
